@@ -303,7 +303,15 @@ class StructureVisitor(ASTTemplate):
             if kind == "ast":
                 return f"({self.visit(val)})"
             return quote_name(node.value)
-        return f"({self.visit(node)})"
+        # An operand that is itself an expression is an intermediate result: its measures keep the
+        # names of its own structure. Only the statement's top-level operator names them after the
+        # assignment's output (e.g. int_var for ceil / floor).
+        saved = self.current_assignment
+        self.current_assignment = ""
+        try:
+            return f"({self.visit(node)})"
+        finally:
+            self.current_assignment = saved
 
     def _resolve_dataset_name(self, node: AST.AST) -> str:
         """Resolve a VarID to its actual dataset name (handles UDO params)."""
